@@ -8,7 +8,7 @@ CONFIG = {
     "level": "proof",
     "trusted_base": [
         KERNEL,
-        TRANSLATOR + " (TokensGen.v: TokenType iota block, tokens[] texts, operators as init() derives them and as the built package holds them, CanStartTag / IsLiteral / keyword sets, case labels of nextFragment and walkStatement, explicit panic( sites of the anchored files; UnicodeGen.v: unicode.IsSpace/IsDigit/IsLetter range tables computed with the toolchain that builds /repo)",
+        TRANSLATOR + " (TokensGen.v: TokenType iota block, tokens[] texts, operators as init() derives them and as the built package holds them, CanStartTag / IsLiteral / keyword sets, case labels of nextFragment and walkStatement, the message texts / formats (func_strings) and the expected token sets of every unexpectedToken / popType call (walker_expected), explicit panic( sites of the anchored files; UnicodeGen.v: unicode.IsSpace/IsDigit/IsLetter range tables computed with the toolchain that builds /repo)",
         CORR, HARNESS,
         "modelled, not verified: Go's []rune(string) conversion (lib/Text.v utf8_decode, compared on every input incl. invalid UTF-8), strings.Split on \"\\n\", map lookup, slice append, fmt/strings.Builder output of humanString (only its index and slice operations are modelled)",
         "add-only hooks: internal/bcl/internal/parser/verif_export.go, internal/bcl/genlsp/verif_export.go, internal/bcl/verifbcl, lib/verifshim/bcl (build tag verif)",
@@ -17,8 +17,8 @@ CONFIG = {
         "model/BclLexer.v, BclParser.v, BclErrpos.v are hand-written models of lexer.go, token.go, parser.go (ParseFile, Walk, walkFragments and all productions, recoverError, fragmentsToFile), expressions.go NewReference and errpos/print.go humanString as they are after the fix: commits listed in KNOWN_FINDINGS.txt; they are tied to the code by the correspondence stream of this run (tokens with literals and ranges, fragment and tree node ranges, diagnostic ranges, humanString branch / context count / caret width) and by the regenerated tables",
         "theorems are stated over the rune slice []rune(input) (parse_runes); parse_file = parse_runes after utf8_decode by definition; 'inside the input' is proved both for lines of the rune slice and for strings.Split(input, newline) on bytes with columns counted in runes of the line (C11_valid_is_inside_bytes, from a proof that []rune conversion commutes with splitting at newlines)",
         "recursion depth: popValue recurses once per '[' and is bounded by maxValueDepth = 10000 since fix e710ab8 (the model's pop_value carries the same depth argument and bound; TokensGen reads the constant and counts the guarded recursive call); all other routines of lexer, walker, fragmentsToFile and humanString are loops. Gallina has no stack, so 'never panics' in the model covers stack exhaustion only through this bound, which the run exercises with 2,000,000 nested brackets in a child process",
-        "diagnostics are modelled as ranges only: 'collect-all reports the fail-fast diagnostic first' is proved for the first diagnostic's (start, end); equality of the message text is checked by the direct oracle on every input, not by a theorem",
-        "tree nodes covered by C11_positions_valid: block/header, assignment, description, reference, ident, tag, scalar value, array value, trailing comment, header description; the token copies kept inside nodes (MarkToken, Description.Tokens, Ident.Token, Value.token, Comment.Token) are lexer tokens, covered by C11_lexer_total_and_ordered, not re-stated per node",
+        "a diagnostic is modelled as range + message bytes (errpos.Err.Err.Error()): the lexer's errf texts, unexpectedTokenError.msg() with Token.String() (literal cut to 20 bytes) and the expected-type list of the error site, the two fragmentsToFile texts, the nesting-bound text; the texts, formats (%s %c %d only) and expected sets are read from the Go source by the translator (TokensGen.func_strings, walker_expected), so a reworded message follows the code; compared byte for byte in Coq on every case. unexpectedTokenError.context ('after ...') is not part of the diagnostic (addError uses msg()) and is not modelled",
+        "tree nodes covered by C11_positions_valid: block/header, assignment, description, reference, ident, tag, scalar value, array value, trailing comment, header description, and the token copies kept inside nodes: TagValue.MarkToken (when there is a mark), Description.Tokens, Value.token; Ident.Token and Comment.Token / CloseBlock.Token have the range of their node (same token) and are not dumped separately",
         "humanString is modelled as its guards and the three index / slice operations that can panic; the rendered text is not modelled (the run compares branch, context-line count and caret width)",
         "Walk on a token slice that the lexer did not produce (tokens of type EOF, empty slice with a pending pop) is outside the theorems: ParseFile only passes lexer output",
     ],
